@@ -72,10 +72,12 @@ const STRING_FORMATS = {
   lower: (s) => s === s.toLowerCase(),
   len3: (s) => s.length >= 3,
   aprefix: (s) => s.startsWith("a"),
+  code: (s) => s.length <= 4,
 };
 const NUMBER_FORMATS = {
   nonneg: (n) => n >= 0,
   int: (n) => Number.isInteger(n),
+  code: (n) => n < 100,
 };
 
 // ---- tagged JSON <-> JS values ----
@@ -242,6 +244,18 @@ function buildB(spec) {
     case "named": {
       const name = `VerifNamed_${process.pid}_${namedCounter++}`;
       return RTMOD.createNamedType(name, buildB(spec.item));
+    }
+    case "named_ov": {
+      // the README's pattern with a use in between: createNamedType(name, first); the parser is used; then
+      // overrideNamedType(name, item).  From then on the parser is the one of `item`.
+      const name = `VerifNamedOv_${process.pid}_${namedCounter++}`;
+      const p = RTMOD.createNamedType(name, buildB(spec.first));
+      for (const probe of [undefined, null, "a", 1, {}, [], { a: "a" }]) {
+        try { p.validate(probe); p.safeParse(probe); } catch {}
+      }
+      try { p.hash256(); p.describe(); } catch {}
+      RTMOD.overrideNamedType(name, buildB(spec.item));
+      return p;
     }
     default: throw new Error("bad b spec " + JSON.stringify(spec));
   }
